@@ -23,7 +23,7 @@ ASSUMPTIONS = [
 ]
 PLAN = {
     "quick": {"shards": 8, "shard_timeout": 300, "case_timeout": 25, "grammars": 800, "max_case_timeouts": 3},
-    "thorough": {"shards": 16, "shard_timeout": 1500, "case_timeout": 40, "grammars": 10000, "max_case_timeouts": 20},
+    "thorough": {"shards": 16, "shard_timeout": 3600, "case_timeout": 40, "grammars": 40000, "max_case_timeouts": 20},
 }
 THRESHOLDS = {
     "quick": {"rules_checked": 1500, "re_extractions": 600, "rules_with_zero_weight": 200, "nested_rules": 100, "progressive_choices": 3000, "progressive_choices_with_zero_offer": 300, "stack_weighted_choices": 3000, "stack_zero_offers": 500},
